@@ -243,9 +243,13 @@ impl ValveProtocol {
         let mod_data = match is_mod {
             false => None,
             true => {
+                let link = buffer.read_string::<Utf8Decoder>(None)?;
+                let download_link = buffer.read_string::<Utf8Decoder>(None)?;
+                buffer.move_cursor(1)?; // a NULL byte follows the download link
+
                 Some(ModData {
-                    link: buffer.read_string::<Utf8Decoder>(None)?,
-                    download_link: buffer.read_string::<Utf8Decoder>(None)?,
+                    link,
+                    download_link,
                     version: buffer.read()?,
                     size: buffer.read()?,
                     multiplayer_only: buffer.read::<u8>()? == 1,
